@@ -12,17 +12,29 @@ SPEC_FUNCS = {}
 
 
 class Spec:
-    def __init__(self, name, smt, native):
+    def __init__(self, name, smt, native, ret):
         self.name = name
         self.smt = smt
         self.native = native
+        self.ret = ret
+
+    def opaque(self, eng, st, *args):
+        """Hidden definition (opaque / reveal): an uninterpreted function of the argument terms."""
+        sorts = [a.ty.sort() for a in args]
+        key = ('opaque', self.name, tuple(str(x) for x in sorts))
+        if key not in _FOLDS:
+            _FOLDS[key] = z3.Function('spec_' + self.name, *(sorts + [self.ret.sort()]))
+        return Val(self.ret, _FOLDS[key](*[a.t for a in args]))
 
 
-def spec(name, native):
+def spec(name, native, ret=TBool):
     def deco(smt):
-        SPEC_FUNCS[name] = Spec(name, smt, native)
+        SPEC_FUNCS[name] = Spec(name, smt, native, ret)
         return smt
     return deco
+
+
+_FOLDS = {}
 
 
 # ---------------------------------------------------------------------------- descriptor compatibility (C03)
@@ -59,6 +71,17 @@ def _s_is_descriptor(eng, st, d):
     return Val(TBool, z3.And(z3.Length(d.t) >= 2,
                              z3.Or(*[d0 == S(c) for c in '$!<>']),
                              z3.Or(*[last == S(c) for c in '0123456789'])))
+
+
+def _n_kind_ok(d):
+    return len(d) >= 1 and d[0] in '$!<>'
+
+
+@spec('kind_ok', _n_kind_ok)
+def _s_kind_ok(eng, st, d):
+    S = z3.StringVal
+    d0 = z3.SubString(d.t, 0, 1)
+    return Val(TBool, z3.And(z3.Length(d.t) >= 1, z3.Or(*[d0 == S(c) for c in '$!<>'])))
 
 
 # ---------------------------------------------------------------------------- complement (C16/C17)
@@ -108,9 +131,6 @@ def _s_fmt_one_term(d):
 @spec('fmt_one', _n_fmt_one)
 def _s_fmt_one(eng, st, d):
     return Val(TStr, _s_fmt_one_term(d.t))
-
-
-_FOLDS = {}
 
 
 def _fold_uf(name, list_sort, out_sort):
@@ -183,3 +203,74 @@ def _s_lsum(eng, st, xs, k):
     st.assume(z3.Implies(kt <= 0, F(xs.t, kt) == 0),
               z3.Implies(kt > 0, F(xs.t, kt) == F(xs.t, kt - 1) + elem))
     return Val(TReal, F(xs.t, kt))
+
+
+# ---------------------------------------------------------------------------- graph helpers (heap reads)
+from . import heap as _H            # noqa: E402
+from . import native_graph as _NG   # noqa: E402
+
+
+def _cstr(v):
+    s = z3.simplify(v.t)
+    if not z3.is_string_value(s):
+        raise Unsupported('attribute name in contract text must be a constant')
+    return s.as_string()
+
+
+@spec('nodes', _NG.nodes)
+def _s_nodes(eng, st, g):
+    return Val(_H.T_NODELIST, st.heap.nodes(g.t))
+
+
+@spec('has_node', _NG.has_node)
+def _s_has_node(eng, st, g, n):
+    return Val(TBool, st.heap.has_node(g.t, n.t))
+
+
+@spec('has_attr', _NG.has_attr)
+def _s_has_attr(eng, st, g, n, k):
+    suffix, ty = _H.NODE_SCHEMAS[g.ty.schema][_cstr(k)]
+    return Val(TBool, z3.And(st.heap.has_node(g.t, n.t), st.heap.nhas(g.t, n.t, suffix)))
+
+
+@spec('attr', _NG.attr)
+def _s_attr(eng, st, g, n, k):
+    suffix, ty = _H.NODE_SCHEMAS[g.ty.schema][_cstr(k)]
+    return Val(ty, st.heap.nval(g.t, n.t, suffix))
+
+
+@spec('has_edge', _NG.has_edge)
+def _s_has_edge(eng, st, g, u, v):
+    return Val(TBool, st.heap.has_edge(g.t, u.t, v.t))
+
+
+@spec('has_eattr', _NG.has_eattr)
+def _s_has_eattr(eng, st, g, u, v, k):
+    suffix, ty = _H.EDGE_SCHEMA[_cstr(k)]
+    return Val(TBool, z3.And(st.heap.has_edge(g.t, u.t, v.t), st.heap.ehas(g.t, u.t, v.t, suffix)))
+
+
+@spec('eattr', _NG.eattr)
+def _s_eattr(eng, st, g, u, v, k):
+    suffix, ty = _H.EDGE_SCHEMA[_cstr(k)]
+    return Val(ty, st.heap.evalue(g.t, u.t, v.t, suffix))
+
+
+@spec('n_nodes', _NG.n_nodes)
+def _s_n_nodes(eng, st, g):
+    return Val(TInt, st.heap.n_nodes(g.t))
+
+
+@spec('n_edges', _NG.n_edges)
+def _s_n_edges(eng, st, g):
+    return Val(TInt, _H.T_EDGELIST.length(st.heap.edges(g.t)))
+
+
+@spec('keys', lambda d: list(d))
+def _s_keys(eng, st, d):
+    return ops.dict_keys(d)
+
+
+@spec('edge_list', lambda g: [tuple(e) for e in g.edges])
+def _s_edge_list(eng, st, g):
+    return Val(_H.T_EDGELIST, st.heap.edges(g.t))
